@@ -116,4 +116,14 @@ PROPS = {
                 "non-trivial = an accepted operation",
         "trusted": ["mint-one-token-and-drop-authority and freezing are token-program CPIs and are not executed; open_position's own handlers are covered through validate_tick_range only"],
     },
+    "C19": {
+        "lean_modules": ["WP.Props.C19"],
+        "lean_support": [],
+        "families": [("mint", 40000, 2000000), ("badge", 0, 0), ("setfee", 10000, 200000), ("afc", 30000, 1000000), ("initpool", 20000, 500000)],
+        "rule": "mint: is_supported_token_mint on synthesized SPL / Token-2022 mint accounts (real packed base state; TLV with 0-4 entries drawn from supported, badge-gated, "
+                "never-supported, unknown (>27) and zero type numbers, DefaultAccountState values 0/1/2 and wrong lengths, random truncation and trailing bytes; freeze authority, native mint, badge on/off); "
+                "badge: all 8 combinations; setfee: all five bounded setters on boundary and random values; afc: validate_constants on boundary-biased constants; initpool: Whirlpool::initialize; "
+                "non-trivial = an accepted input",
+        "trusted": ["the mint account base layout / Anchor InterfaceAccount<Mint> unpacking (accounts of length 82 or > 165, never 355); sequences of instructions are covered through the write-site inventory, not executed"],
+    },
 }
